@@ -131,6 +131,16 @@ func runStoreInput(rep *Report, in StoreInput, cf *CaseFile) (writes int) {
 			must(os.WriteFile(filepath.Join(dir, "t", "sub", "deep", "c"), synthContent(3, 10), 0o644))
 			must(os.Symlink("../a.txt", filepath.Join(dir, "t", "sub", "lnk")))
 			lnk, _, err = builder.BuildUnixFSRecursive(filepath.Join(dir, "t"), ls)
+			// the same tree for the store model (ReadDir order = sorted names, as coqFs prints it)
+			term = "(SRecursive " + coqFs(&FsNode{Kind: "dir", Name: "t", Children: []*FsNode{
+				{Kind: "file", Name: "a.txt", Size: 300, Seed: 1},
+				{Kind: "file", Name: "empty", Size: 0, Seed: 0},
+				{Kind: "dir", Name: "sub", Children: []*FsNode{
+					{Kind: "file", Name: "b.bin", Size: 700, Seed: 2},
+					{Kind: "dir", Name: "deep", Children: []*FsNode{{Kind: "file", Name: "c", Size: 10, Seed: 3}}},
+					{Kind: "symlink", Name: "lnk", Target: "../a.txt"},
+				}},
+			}}) + ")"
 		case "quick":
 			err = quickbuilder.Store(ls, func(b *quickbuilder.Builder) error {
 				f1 := b.NewBytesFile(synthContent(4, 40))
